@@ -187,7 +187,12 @@ def run_contract(prop: str, c: FnContract, reg: Registry, uni: Universe, *, repo
     rep.gen_seconds = time.time() - t0
     rep.covers = covers
     for ob in obls.values():
-        rep.obligations.append(discharge(ob, timeout_ms, getattr(ex, "witness_terms", {})))
+        d = discharge(ob, timeout_ms, getattr(ex, "witness_terms", {}))
+        if getattr(c, "bounded", ""):
+            d["id"] += ".BOUNDED"
+            d["kind"] = "bounded"
+            d["bound"] = c.bounded
+        rep.obligations.append(d)
     return rep
 
 
